@@ -31,7 +31,7 @@ CLAIMS = {
          "Generic payloads use the WriteToHeader contract (writer := old ++ enc(x)) that C20.E establishes for every impl. Trusted: std axioms (Vec push/extend/reserve/with_capacity, Option::take).", TECH_SUM + "; loop widening + idiom rule; frame (who-may-write) checks"),
  "C13": ("proof", "For each accepted control combination the generic accepted header is parsed by the parser summary, its views computed by the accessor summaries, and the fixed rebuild histories (raw views; decoded address value) composed from the builder transformers; every path must be Ok and normalise to the original bytes; item re-encoding equals the slice it was read from.", "5/C13",
          "Trusted: std axioms. The 'decoded items' clause for whole sections is the induction over C11.R tiling + C13.I.", "composition of MIR value-flow summaries along a fixed call history, compared by sequence normalisation"),
- "C11": ("proof", "The loop-free Iterator::next step is compared with the reference TLV step (value and cursor update) on its four-way partition; ranking/typestate facts (error parks the cursor, item advances by >= 3 and stays inside) are entailed by the extracted guards; constructors and field frames checked. Provided Iterator methods overridden for TypeLengthValues (count, last, fold, for_each, nth, any, all) must agree with next on the base cases with at most one item (C11.O, a necessary condition); every panic obligation of next is discharged.", "5/C11",
+ "C11": ("proof", "The loop-free Iterator::next step is compared with the reference TLV step (value and cursor update) on its four-way partition; ranking/typestate facts (error parks the cursor, item advances by >= 3 and stays inside) are entailed by the extracted guards; constructors and field frames checked. Provided Iterator methods overridden for TypeLengthValues (count, last, fold, for_each, nth, any, all, position) must agree with next on the base cases with at most one item (C11.O, a necessary condition); every panic obligation of next is discharged.", "5/C11",
          "Trusted: std axioms (slice index/len, from_be_bytes). Induction over calls is the standard argument from the step relation (DESIGN.md C11.R).", TECH_SUM + "; who-may-write query on private fields"),
  "C12": ("other", "v2: single-corruption rows of the decision table resolve to the element's variant carrying the offending value, all terminal; decided for every byte string. v1: on every path that returns Invalid<field k> the validity of field k is unsatisfiable and the validity of every earlier field is entailed (token predicates); FromStr reports exactly try_from's error; entry points discharge all panic obligations.", "5/C12",
          "Not decided (v1): which check a corrupted string reaches first. Trusted: std axioms.", TECH_SUM),
